@@ -54,6 +54,11 @@ type c16obs struct {
 	wire         []byte
 	eof          bool
 	entryRunning []int // running wrapped handlers when the wrapper was entered, per request
+	entryOcc     []int // occupied TimeoutHandler slots (len(s.concurrencyCh)) at that moment
+	entryLateRet []int // timed-out handlers that had returned by then (their slot may or may not be released yet)
+	lateReturned int
+	admitted     int // wrapper calls that were not turned away with 429
+	hStarted     int
 	running      int
 	maxRunning   int
 	timedOut     []string // /s paths that found the timeout response set when their gate opened
@@ -113,11 +118,17 @@ func c16own(p, ops string) (status int, body string, xlate bool) {
 func c16handler(o *c16obs, sc c16scn) RequestHandler {
 	return func(ctx *RequestCtx) {
 		p := string(ctx.Path())
+		o.hStarted++
 		o.running++
 		if o.running > o.maxRunning {
 			o.maxRunning = o.running
 		}
-		defer func() { o.running-- }()
+		defer func() {
+			if ctx.timeoutResponse != nil && p[1] != 't' {
+				o.lateReturned++
+			}
+			o.running--
+		}()
 		switch p[1] {
 		case 'f':
 			ctx.SetBodyString("ok:" + p)
@@ -224,8 +235,14 @@ func c16body(sc c16scn) func() {
 		s := &Server{NoDefaultDate: true, NoDefaultServerHeader: true, Logger: c16nopLogger{}, Concurrency: sc.conc, StreamRequestBody: sc.stream}
 		wrapped := TimeoutWithCodeHandler(c16handler(o, sc), sc.T, c16msg, sc.code)
 		s.Handler = func(ctx *RequestCtx) {
-			o.entryRunning = append(o.entryRunning, o.running)
+			// handlers whose goroutine was spawned by an earlier wrapper call but has not entered h yet count as running
+			o.entryRunning = append(o.entryRunning, o.running+(o.admitted-o.hStarted))
+			o.entryOcc = append(o.entryOcc, len(s.concurrencyCh))
+			o.entryLateRet = append(o.entryLateRet, o.lateReturned)
 			wrapped(ctx)
+			if !(ctx.timeoutResponse == nil && ctx.Response.StatusCode() == StatusTooManyRequests) {
+				o.admitted++
+			}
 		}
 		mcrt.Invariant(func() string {
 			if o.running > sc.conc {
@@ -285,7 +302,7 @@ func c16check(sc c16scn, ref []c16resp) func(x *mcrt.Exec) (string, string, stri
 		}
 		rs, rest := c16split(o.wire)
 		var cls []string
-		ctxt := func() string { return fmt.Sprintf("wire=%q entryRunning=%v events=%v", o.wire, o.entryRunning, o.log) }
+		ctxt := func() string { return fmt.Sprintf("wire=%q entryRunning=%v entryOcc=%v events=%v", o.wire, o.entryRunning, o.entryOcc, o.log) }
 		closedEarly := false
 		for i, rq := range sc.reqs {
 			if i >= len(rs) {
@@ -295,21 +312,38 @@ func c16check(sc c16scn, ref []c16resp) func(x *mcrt.Exec) (string, string, stri
 				return strings.Join(cls, ","), "response-missing-after-timeout", fmt.Sprintf("request %d (%s) got no response; %s", i, rq.path, ctxt())
 			}
 			r := rs[i]
-			excess := i < len(o.entryRunning) && o.entryRunning[i] >= sc.conc
+			run, occ, lateRet := 0, 0, 0
+			if i < len(o.entryRunning) {
+				run, occ, lateRet = o.entryRunning[i], o.entryOcc[i], o.entryLateRet[i]
+			}
 			late := strings.Contains(string(r.raw), "late") || strings.Contains(string(r.raw), "X-Late") || strings.Contains(string(r.raw), "LATE-TMO")
 			isTimeout := r.status == sc.code && r.body == c16msg && !late
 			if r.status == StatusTooManyRequests && r.body == c16msg && !late {
 				cls = append(cls, "429")
-				if !excess {
-					if sc.serveConn {
-						return strings.Join(cls, ","), "serveconn-only-server-always-429", fmt.Sprintf("request %d (%s) answered 429 on a server used only through ServeConn (concurrencyCh is nil); %s", i, rq.path, ctxt())
-					}
-					return strings.Join(cls, ","), "429-without-excess-running-handlers", fmt.Sprintf("request %d (%s) answered 429 although only %d wrapped handler(s) were running (Concurrency=%d); %s", i, rq.path, o.entryRunning[i], sc.conc, ctxt())
+				// slots are held by running handlers and, for an instant, by handlers that returned but whose goroutine has
+				// not yet released the slot. 429 is legitimate if running handlers plus timed-out handlers that returned
+				// (nobody waits for those, so their release is asynchronous by nature) can fill the slots.
+				held := occ - run
+				if held > lateRet {
+					held = lateRet
+				}
+				switch {
+				case occ < sc.conc && sc.serveConn:
+					return strings.Join(cls, ","), "serveconn-only-server-always-429", fmt.Sprintf("request %d (%s) answered 429 on a server used only through ServeConn (concurrencyCh is nil); %s", i, rq.path, ctxt())
+				case occ < sc.conc:
+					return strings.Join(cls, ","), "429-with-free-slots", fmt.Sprintf("request %d (%s) answered 429 although only %d of %d slots were taken; %s", i, rq.path, occ, sc.conc, ctxt())
+				case run+held < sc.conc:
+					return strings.Join(cls, ","), "429-because-finished-handler-still-holds-slot", fmt.Sprintf("request %d (%s) answered 429 although only %d wrapped handler(s) were running (Concurrency=%d): the slot of an earlier handler that had already returned and whose response was sent was not released yet; %s", i, rq.path, run, sc.conc, ctxt())
 				}
 				continue
 			}
 			switch rq.path[1] {
 			case 'f':
+				if isTimeout {
+					// scheduling slack: the handler goroutine was not run for T (virtual) although runnable
+					cls = append(cls, "timeout-fast")
+					break
+				}
 				if i >= len(ref) || !bytes.Equal(r.raw, ref[i].raw) {
 					if late {
 						return strings.Join(cls, ","), "late-handler-write-reaches-later-response", fmt.Sprintf("response %d (%s) carries data written by a timed-out handler: %q; %s", i, rq.path, r.raw, ctxt())
@@ -318,6 +352,10 @@ func c16check(sc c16scn, ref []c16resp) func(x *mcrt.Exec) (string, string, stri
 				}
 				cls = append(cls, "ok")
 			case 't':
+				if isTimeout {
+					cls = append(cls, "timeout-before-self")
+					break
+				}
 				if r.status != 408 || r.body != "SELF" || late {
 					if late {
 						return strings.Join(cls, ","), "write-after-own-timeouterror-reaches-response", fmt.Sprintf("response %d (%s) after the handler's own TimeoutError(\"SELF\") is %q; %s", i, rq.path, r.raw, ctxt())
@@ -326,7 +364,10 @@ func c16check(sc c16scn, ref []c16resp) func(x *mcrt.Exec) (string, string, stri
 				}
 				cls = append(cls, "self")
 			case 's':
-				must := sc.d == 0 || sc.d > sc.T || c16has(o.timedOut, rq.path)
+				// the handler saw the timeout response set when its gate opened => nothing of what it did afterwards may be
+				// sent. (d > T alone does not force a timeout: if the serving goroutine is not scheduled between T and d it
+				// may find both the timer and the completion ready and take the completion - a complete, in-time response.)
+				must := sc.d == 0 || c16has(o.timedOut, rq.path)
 				if isTimeout {
 					cls = append(cls, "timeout")
 					break
